@@ -22,7 +22,7 @@ def gen_schemas(tr, sd):
     out = []
     pats = ["^[a-z]+$", "^[a-z]{2,8}$", "^[a-z0-9 ]*$", "^x[a-z]*y$", "^[A-Za-z ]{0,20}$", "^[^a]*$", "^(foo|bar)[a-z]*$", "^[0-9]{1,4}$"]
     fmts = ["date", "time", "email", "hostname", "uuid", "ipv4"]
-    for _ in range(14 if tr == "quick" else 150):
+    for _ in range(14 if tr == "quick" else 60):
         s = {"type": "string"}
         r = rng.random()
         if r < 0.4:
@@ -151,7 +151,7 @@ def run():
     viol = []
     samples = []
     with ProcessPoolExecutor(max_workers=14) as ex:
-        for o in ex.map(_work, [(i, results[i], L, 160 if tr == "quick" else 500) for i in range(len(cases))], chunksize=1):
+        for o in ex.map(_work, [(i, results[i], L, 160 if tr == "quick" else 300) for i in range(len(cases))], chunksize=1):
             i = o["idx"]
             c = cases[i]
             stats["queries"] += o["queries"]
